@@ -201,7 +201,9 @@ static void pot_case(Rng &r) {
     for (int i = 0; i < 2; i++) o << " " << dexact(pf.CalculateDF(i, rr));
     for (int i = 0; i < 2; i++) for (int j = 0; j < 2; j++) o << " " << dexact(pf.CalculateD2F(i, j, rr));
     numder(pf, 2, rr, o);
-    tab_out(pf, 0.05 * (double)(1 + r.below(3)), mn, cut, r.coin(), o);
+    // steps that divide the range, that do not (the last row sits at the cutoff all the same), a fine one, and one larger than the range (one row)
+    static const double steps[] = {0.05, 0.1, 0.15, 0.01, 0.07, 2.0};
+    tab_out(pf, steps[r.below(6)], mn, cut, r.coin(), o);
   } else if (form == 1) {
     PotentialFunctionLJG pf("ljg", mn, cut);
     Eigen::VectorXd lam(5); lam << 0.001 + r.unit() * 0.01, 0.01 + r.unit() * 0.1, (r.unit() - 0.5) * 4, 0.5 + r.unit() * 20, mn + (cut - mn) * r.unit();
